@@ -230,6 +230,13 @@ def run_error(env, sec, kind, state, res):
         if sec == 'lua':
             return
         args = ['build', out, '--' + sec, env.src_lua]
+    elif kind == 'emptypath':
+        # an empty file name (a script passing --gfx "$GFX" with the variable unset) names no usable source
+        args = ['build', out, '--' + sec, '']
+    elif kind == 'emptypath+empty':
+        args = ['build', out, '--' + sec, '', '--empty-' + sec]
+    elif kind == 'dirpath':
+        args = ['build', out, '--' + sec, env.d]
     elif kind == 'outext':
         # OUT itself has an unusable name: nothing may be created
         out = os.path.join(env.d, 'out_' + sec + '.txt')
@@ -321,7 +328,7 @@ def run_shard(item):
         elif item[0] == 'errors':
             for state in OUT_STATES:
                 for sec in SECTIONS:
-                    for kind in ('both', 'missing', 'wrongext', 'luaext', 'outext'):
+                    for kind in ('both', 'missing', 'wrongext', 'luaext', 'outext', 'emptypath', 'emptypath+empty', 'dirpath'):
                         run_error(env, sec, kind, state, res)
             res.sample({'error': 'both --gfx and --empty-gfx', 'out': 'existing-p8'})
     finally:
